@@ -56,7 +56,7 @@ Proof.
               H1 H2 fs0_wf H3 H4 H5 H6 "rd" ["r"] PNone (PDict []) H7) as [o [Hin Hc]].
   assert (Hall : forallb (fun e => negb (path_eqb (fst e) ["r"]) || op_clean (snd e)) (k_newF s_u1) = true)
     by (vm_compute; reflexivity).
-  rewrite (In_forallb_path _ _ _ Hall Hin) in Hc. discriminate.
+  rewrite (In_forallb_path _ _ _ Hall Hin) in Hc. discriminate Hc.
 Qed.
 
 (* ---------------------------------------------------------------- (ii) *)
@@ -72,6 +72,8 @@ Definition frame_naive_statement : Prop :=
     cr_log (core_build (next_fs cf s1) cf (CoreCache.cache_of_state nm s1) vers clock' nextid' root).
 
 Definition s_h1 : kstate := st_of h1.
+Definition fshx' : fsT :=
+  upd ["x"; "d"] (Some (NFile {| f_bytes := "foreign"; f_mtime := 30; f_id := 77; f_json := None |})) (next_fs cfc s_h1).
 
 Theorem frame_naive_false : ~ frame_naive_statement.
 Proof.
@@ -85,14 +87,14 @@ Proof.
   assert (H5 : records_clean s_h1 = true) by (vm_compute; reflexivity).
   assert (H5' : records_distinct s_h1 = true) by (vm_compute; reflexivity).
   assert (H6 : no_foreign_targets fs0 cfc (empty_cache "b" verso) s_h1) by (apply nft_of_bool; vm_compute; reflexivity).
-  assert (H7 : fs_wf fshx) by (apply wf_b_sound; vm_compute; reflexivity).
-  assert (H8 : forall q, observed_by s_h1 q = true -> lookup fshx q = lookup (next_fs cfc s_h1) q).
-  { intros q Hq. unfold fshx. destruct (path_eqb ["x"; "d"] q) eqn:E.
-    - apply FsLemmas.path_eqb_eq in E. subst q. vm_compute in Hq. discriminate.
-    - apply FsLemmas.path_eqb_neq in E. rewrite FsLemmas.lookup_upd_neq by congruence. reflexivity. }
-  pose proof (S fs0 cfc (empty_cache "b" verso) verso 10%N 10%N root_o "b" (PBool false) s_h1 50%N 50%N fshx
+  assert (H7 : fs_wf fshx') by (apply wf_b_sound; vm_compute; reflexivity).
+  assert (H8 : forall q, observed_by s_h1 q = true -> lookup fshx' q = lookup (next_fs cfc s_h1) q).
+  { intros q Hq. unfold fshx'. destruct (path_eqb ["x"; "d"] q) eqn:E.
+    - apply FsLemmas.path_eqb_eq in E. subst q. vm_compute in Hq. discriminate Hq.
+    - apply FsLemmas.path_eqb_neq in E. rewrite FsLemmas.lookup_upd_neq; [reflexivity|]. intro; subst q; apply E; reflexivity. }
+  pose proof (S fs0 cfc (empty_cache "b" verso) verso 10%N 10%N root_o "b" (PBool false) s_h1 50%N 50%N fshx'
                 H1 H2 fs0_wf H3 H4 H5 H5' H6 H7 H8) as E.
-  apply (f_equal (@List.length logentry)) in E. vm_compute in E. discriminate.
+  apply (f_equal (@List.length logentry)) in E. vm_compute in E. discriminate E.
 Qed.
 
 Print Assumptions rerun_only_unclean_false.
